@@ -144,7 +144,11 @@ impl W<'_> {
     fn comment(&mut self) {
         let nl = self.nl;
         let c: String = if self.tricky {
-            match self.rng.below(7) {
+            match self.rng.below(11) {
+                7 => "/** doc **/ ".into(),
+                8 => "/***/ ".into(),
+                9 => format!("/****{nl} * banner *{nl} ****/ "),
+                10 => "/* a **/ /* b ***/ ".into(),
                 0 => "/* a | b ; 'x' %% */ ".into(),
                 1 => format!("// 'x' \"y\" %% {{ }}{nl}"),
                 2 => format!("/* multi{nl} line * / ** */ "),
